@@ -509,17 +509,21 @@ static int
 fncmp(const char *fn1, const char *fn2)
 {
 /* like strcmp() but two spellings of one file compare equal,
- * FN1 is going to be created anyway so do that now */
+ * an existing FN1 is not opened for that, it might be a fifo,
+ * a missing one is going to be created anyway so do that now */
 	struct stat s1, s2;
 	int fd;
 
 	if (!strcmp(fn1, fn2)) {
 		return 0;
-	} else if ((fd = open(fn1, O_WRONLY | O_CREAT, 0666)) < 0) {
+	} else if (stat(fn1, &s1) == 0) {
+		;
+	} else if ((fd = open(fn1, O_WRONLY | O_CREAT | O_EXCL, 0666)) < 0) {
+		return 1;
+	} else if (close(fd), stat(fn1, &s1) < 0) {
 		return 1;
 	}
-	close(fd);
-	return stat(fn1, &s1) < 0 || stat(fn2, &s2) < 0 ||
+	return stat(fn2, &s2) < 0 ||
 		s1.st_dev != s2.st_dev || s1.st_ino != s2.st_ino;
 }
 
